@@ -11,12 +11,12 @@ CONSTANTS Family, DevMode, Tier
 Dev == IF DevMode = "literal" THEN {} ELSE DevNames
 Thorough == Tier = "thorough"
 
-(* --- multiplier alphabets (ascending).  lb: mu (lambda = -1/mu), no value 1, no pair with product 1
+(* --- multiplier alphabets (ascending).  lb: mu (lambda = -1/mu), no value +-1 and no pair with product 1
        under the scales 1, 2, 1/2 (that would tie in |nu|).  freq: omega given, mu = 1/omega^2;
        1 and 26/25 (51/50) share a rounding bucket of the 0.1 rad/s sort. ------------------------- *)
 LbAlpha == IF Thorough
-           THEN <<Q(-5,2), Q(-2,1), Q(-4,5), Q(-3,5), Q(-1,3), Q(-1,6), Q(1,4), Q(3,2), Q(3,1)>>
-           ELSE <<Q(-2,1), Q(-3,5), Q(-1,3), Q(-1,6), Q(1,4), Q(3,1)>>
+           THEN <<Q(-5,2), Q(-9,4), Q(-4,5), Q(-3,5), Q(-1,3), Q(-1,6), Q(1,4), Q(3,2), Q(3,1)>>
+           ELSE <<Q(-9,4), Q(-3,5), Q(-1,3), Q(-1,6), Q(1,4), Q(3,1)>>
 Om == IF Thorough
       THEN <<Q(4,1), Q(7,2), Q(3,1), Q(5,2), Q(2,1), Q(3,2), Q(26,25), Q(51,50), Q(1,1), Q(1,2)>>
       ELSE <<Q(3,1), Q(5,2), Q(2,1), Q(3,2), Q(26,25), Q(1,1), Q(1,2)>>
